@@ -228,20 +228,30 @@ class MultiTerm(qcore.Query):
         if not qs:
             return matching.NullMatcher()
 
+        if constantscore:
+            # To tell the sub-query that score doesn't matter, set weighting
+            # to None
+            if context:
+                context = context.set(weighting=None)
+            else:
+                from whoosh.searching import SearchContext
+                context = SearchContext(weighting=None)
+
         if len(qs) == 1:
             # If there's only one term, just use it
             m = qs[0].matcher(searcher, context)
+        elif constantscore:
+            m = Or(qs).matcher(searcher, context)
         else:
-            if constantscore:
-                # To tell the sub-query that score doesn't matter, set weighting
-                # to None
-                if context:
-                    context = context.set(weighting=None)
-                else:
-                    from whoosh.searching import SearchContext
-                    context = SearchContext(weighting=None)
             # Or the terms together
             m = Or(qs, boost=self.boost).matcher(searcher, context)
+
+        if constantscore:
+            # Every match scores the same: the boost (however many terms the
+            # query expanded to, and whichever matcher the union compiled to)
+            m = matching.ConstantScoreWrapperMatcher(m, self.boost)
+        elif len(qs) == 1 and self.boost != 1.0:
+            m = matching.WrappingMatcher(m, boost=self.boost)
         return m
 
 
